@@ -69,7 +69,8 @@ section
 variable (fs : FS) (lim : Limits) (root : Path) (rf : File)
 
 theorem dfs_pre2 : Pre2 fs lim root rf root rf [] [] :=
-  ⟨by simp [fileOf], Or.inl rfl, Reach.root, fun x hx => by simp at hx⟩
+  ⟨by simp [fileOf], Or.inl rfl, Reach.root, fun x hx => by simp at hx,
+    fun x hx => by simp only [List.mem_singleton] at hx; exact Or.inl hx⟩
 
 theorem dfs_shape : (dfs fs lim root rf).seen = (dfs fs lim root rf).order.reverse ++ [root] ∧
     (dfs fs lim root rf).seen.Nodup :=
@@ -88,24 +89,41 @@ theorem dfs_nodup : (dfs fs lim root rf).order.Nodup ∧ root ∉ (dfs fs lim ro
 theorem dfs_sound : ∀ g ∈ (dfs fs lim root rf).order, Reach fs lim root rf g :=
   (visit_sound fs lim root rf _ root rf [] [] (dfs_pre2 fs lim root rf)).2.1
 
+theorem dfs_pre3 : Pre3 fs root rf root rf [] [] :=
+  ⟨by simp [fileOf], Or.inl rfl, fun x hx => by simp at hx⟩
+
+theorem dfs_reach_seen (hnd : NoDepth (dfs fs lim root rf).errs) :
+    ∀ g, Reach fs lim root rf g → g ∈ (dfs fs lim root rf).seen := by
+  obtain ⟨p1, p2⟩ := visit_complete fs lim root rf (lim.maxDepth - 1) root rf [] []
+    (dfs_pre3 fs root rf)
+  have hcl := p2 hnd
+  intro g hg
+  induction hg with
+  | root => exact p1 root List.mem_cons_self
+  | step _ he hl ih => exact hcl _ ih (by simp) _ he hl
+
 /-- If the depth limit was not hit, every reachable file is loaded — whatever other
     diagnostics (missing, oversized, cycles, bad globs) were produced on the way. -/
 theorem dfs_complete (hnd : NoDepth (dfs fs lim root rf).errs) :
     ∀ g, Reach fs lim root rf g → g = root ∨ g ∈ (dfs fs lim root rf).order := by
-  have hpost := visit_complete fs lim root rf (lim.maxDepth - 1) root rf [] []
-    ⟨by simp [fileOf], Or.inl rfl, fun x hx => by simp at hx⟩
-  obtain ⟨p1, p2⟩ := hpost
-  have hcl := p2 hnd
-  have hin : ∀ g, Reach fs lim root rf g → g ∈ (dfs fs lim root rf).seen := by
-    intro g hg
-    induction hg with
-    | root => exact p1 root List.mem_cons_self
-    | step _ he hl ih => exact hcl _ ih (by simp) _ he hl
   intro g hg
-  have := hin g hg
+  have := dfs_reach_seen fs lim root rf hnd g hg
   rw [(dfs_shape fs lim root rf).1] at this
   simp only [List.mem_append, List.mem_reverse, List.mem_singleton] at this
   exact this.symm
+
+/-- If the depth limit was not hit and some reachable file lies on a cycle of include
+    directives, a cycle diagnostic is produced. -/
+theorem dfs_cyclic_has_error (hnd : NoDepth (dfs fs lim root rf).errs)
+    (hcy : ∃ x, Reach fs lim root rf x ∧ OnCycle fs lim root rf x) :
+    ∃ e ∈ (dfs fs lim root rf).errs, e.kind = .cycle := by
+  apply Classical.byContradiction
+  intro hno
+  have hnc : NoCyc (dfs fs lim root rf).errs := fun e he hk => hno ⟨e, he, hk⟩
+  obtain ⟨x, hx, hon⟩ := hcy
+  have hpost := visit_acyc fs lim root rf (lim.maxDepth - 1) root rf [] []
+    ⟨dfs_pre3 fs root rf, by simp, fun x hx => by simp at hx⟩ hnd hnc
+  exact hpost.2 x (dfs_reach_seen fs lim root rf hnd x hx) (by simp) hon
 
 /-- Every diagnostic is attached to the directive that names the offending file, in a file that
     is itself reachable, and says something true (see `HL.Reach.Located`). -/
@@ -245,30 +263,49 @@ theorem cycle_iff_backedge (fs : FS) (lim : Limits) (rec : RecS) (cd : Bool) (f 
 theorem cycle_sound (fs : FS) (lim : Limits) (hl : 1 ≤ lim.maxDepth) (c : Cache)
     (hc : Cons fs lim c) (root : Path) (rf : File) (hsz : rf.size ≤ lim.maxSize)
     (e : Err) (he : e ∈ (loadFromContent fs lim .repaired c root rf).errs) (hk : e.kind = .cycle) :
-    ∃ b, e.base = some b ∧ Reach fs lim root rf b ∧ Edge fs root rf b e.path ∧
-      Leads fs root rf e.path b := by
+    ∃ b, e.base = some b ∧ Reach fs lim root rf b ∧ EdgeL fs lim root rf b e.path ∧
+      LeadsL fs lim root rf e.path b := by
   have hloc := errors_local fs lim hl c hc root rf hsz e he
   cases hloc with
-  | cycle hr hf hi hn hlead => exact ⟨_, rfl, hr, ⟨_, hf, _, hi, hn⟩, hlead⟩
+  | cycle hr hf hi hn hent hlead => exact ⟨_, rfl, hr, ⟨⟨_, hf, _, hi, hn⟩, hent⟩, hlead⟩
   | notFound => simp at hk
   | tooLarge => simp at hk
   | depth => simp at hk
   | directive _ _ _ h => rcases h with h | h | h <;> simp [h] at hk
   | parse => simp [parseErr] at hk
 
-/-- no file of the include graph leads back to itself through at least one directive -/
-def Acyclic (fs : FS) (root : Path) (rf : File) : Prop :=
-  ∀ b g, Edge fs root rf b g → ¬ Leads fs root rf g b
+/-- no reachable file lies on a cycle of include directives -/
+def Acyclic (fs : FS) (lim : Limits) (root : Path) (rf : File) : Prop :=
+  ∀ b, Reach fs lim root rf b → ¬ OnCycle fs lim root rf b
 
 /-- **acyclic_no_cycle_error**: if the include graph has no cycle, the repaired loader reports
     no cycle — however many different paths lead to the same file (diamonds). -/
 theorem acyclic_no_cycle_error (fs : FS) (lim : Limits) (hl : 1 ≤ lim.maxDepth) (c : Cache)
     (hc : Cons fs lim c) (root : Path) (rf : File) (hsz : rf.size ≤ lim.maxSize)
-    (hac : Acyclic fs root rf) :
+    (hac : Acyclic fs lim root rf) :
     ∀ e ∈ (loadFromContent fs lim .repaired c root rf).errs, e.kind ≠ .cycle := by
   intro e he hk
-  obtain ⟨b, _, _, hedge, hlead⟩ := cycle_sound fs lim hl c hc root rf hsz e he hk
-  exact hac b e.path hedge hlead
+  obtain ⟨b, _, hr, hedge, hlead⟩ := cycle_sound fs lim hl c hc root rf hsz e he hk
+  exact hac b hr ⟨e.path, hedge, hlead⟩
+
+/-- **cycle_error_iff_cyclic**: when the depth limit is not hit, the repaired loader reports a
+    cycle if and only if some file reachable from the root lies on a cycle of include
+    directives. -/
+theorem cycle_error_iff_cyclic (fs : FS) (lim : Limits) (hl : 1 ≤ lim.maxDepth) (c : Cache)
+    (hc : Cons fs lim c) (root : Path) (rf : File) (hsz : rf.size ≤ lim.maxSize)
+    (hnd : NoDepth (loadFromContent fs lim .repaired c root rf).errs) :
+    (∃ e ∈ (loadFromContent fs lim .repaired c root rf).errs, e.kind = .cycle) ↔
+      ∃ x, Reach fs lim root rf x ∧ OnCycle fs lim root rf x := by
+  constructor
+  · rintro ⟨e, he, hk⟩
+    obtain ⟨b, _, hr, hedge, hlead⟩ := cycle_sound fs lim hl c hc root rf hsz e he hk
+    exact ⟨b, hr, e.path, hedge, hlead⟩
+  · intro hcy
+    have h := loadFromContent_eq_dfs fs lim hl c hc root rf
+    unfold expectContent view at h
+    simp only [Nat.not_lt.mpr hsz, if_false, Prod.mk.injEq] at h
+    rw [h.2] at hnd ⊢
+    exact dfs_cyclic_has_error fs lim root rf hnd hcy
 
 /-! ### The pinned tree (kept for the record) and non-vacuity -/
 
